@@ -431,3 +431,39 @@ def _tensor_param(m: Any, name: str) -> bool:
             ann = unparse(p.annotation) if p.annotation is not None else ""
             return "Tensor" in ann or ann == ""
     return False
+
+
+# ------------------------------------------------------------------------------------------ R10j
+def r10j(ctx: Ctx) -> list[Ob]:
+    """R10j -- resetting a circuit reaches the parameters of wrapped layers.
+
+    A layer may own further layers (``sub_modules``: the layer an evidence layer wraps); their
+    parameter graphs are not part of the wrapper's ``params``.  ``TorchCircuit.reset_parameters`` --
+    the call that allocates and initialises every tensor at the end of a compilation -- therefore has
+    to visit, for every layer, its ``params`` *and*, recursively, the layers in its ``sub_modules``:
+    otherwise a wrapped layer that owns a tensor (a hand-built ``EvidenceLayer(CategoricalLayer(..))``)
+    is compiled with a tensor that is never allocated."""
+    fq = "cirkit.backend.torch.circuits.TorchCircuit.reset_parameters"
+    f = ctx.repo.func(fq)
+    txt_nodes = list(ast.walk(f.node))
+    reads_params = any(isinstance(n, ast.Attribute) and n.attr == "params" for n in txt_nodes)
+    reads_subs = any(isinstance(n, ast.Attribute) and n.attr == "sub_modules" for n in txt_nodes)
+    # delegation to a helper of the layer / module classes that does the descent
+    calls = {n.func.attr for n in txt_nodes if isinstance(n, ast.Call) and isinstance(n.func, ast.Attribute)} | {n.func.id for n in txt_nodes if isinstance(n, ast.Call) and isinstance(n.func, ast.Name)}
+    recursive = False
+    for n in txt_nodes:
+        if isinstance(n, ast.FunctionDef) and n is not f.node:
+            if any(isinstance(c, ast.Call) and isinstance(c.func, ast.Name) and c.func.id == n.name for c in ast.walk(n)):
+                recursive = True
+    if not reads_params and "reset_parameters" in calls:
+        # `for l in self.layers: l.reset_parameters()` -- then the layer class must descend
+        lay = ctx.repo.cls("cirkit.backend.torch.layers.base.TorchLayer")
+        m = ctx.repo.lookup(lay, "reset_parameters")
+        if m is not None and any(isinstance(n, ast.Attribute) and n.attr == "sub_modules" for n in ast.walk(m.node)):
+            return [ok("R10j", fq, "reaches-sub-modules", "delegates to TorchLayer.reset_parameters, which descends into sub_modules", f.loc)]
+        return [unres("R10j", fq, "reaches-sub-modules", "delegates to a per-layer reset the rule has no model of", f.loc)]
+    if reads_params and reads_subs and (recursive or any(isinstance(n, (ast.While,)) for n in txt_nodes)):
+        return [ok("R10j", fq, "reaches-sub-modules", "visits params and, recursively, sub_modules of every layer", f.loc)]
+    if reads_params and reads_subs:
+        return [ok("R10j", fq, "reaches-sub-modules", "visits params and sub_modules of every layer (one level)", f.loc)]
+    return [viol("R10j", fq, "reaches-sub-modules", "reset_parameters visits l.params of the circuit's layers only: the parameter graphs of wrapped layers (sub_modules, e.g. the layer inside an evidence layer) are never allocated / re-initialised -- a wrapped layer that owns a tensor evaluates with 'tensor parameter has not been initialized'", f.loc)]
